@@ -1819,6 +1819,7 @@ class Executor(object):
             sp = s.fork()
             sp.spec = True
             sp.env['_k'] = VInt(kval)
+            sp.env['_k%d' % ordn] = VInt(kval)
             if sq is not None:
                 sp.env['_seq'] = sq
             sp.env['_y0'] = y0 if y0 is not None else NONE
@@ -1832,6 +1833,7 @@ class Executor(object):
             sp = s.fork()
             sp.spec = True
             sp.env['_k'] = VInt(kval)
+            sp.env['_k%d' % ordn] = VInt(kval)
             if sq is not None:
                 sp.env['_seq'] = sq
             sp.env['_y0'] = y0 if y0 is not None else NONE
@@ -1843,6 +1845,7 @@ class Executor(object):
 
         # ---- an arbitrary iteration
         it = hv.fork()
+        it.env['_k%d' % ordn] = VInt(k)
         assume_inv(it, k)
         starts = []
         if is_for:
